@@ -18,7 +18,7 @@ meta["property"] = ID
 meta["confirmed_by_main_session"] = {
     "scratch_worktree": f"/tmp/wt-{ID} (removed afterwards)",
     "what_was_run": "confirm_seed.sh: git apply patch.diff on clean HEAD; go build of all packages + app/memproxy.go; existing suite (go test -vet=off ./orcas/... ./server/... ./protocol/... ./metrics/... ./timer/... ./handlers/... ./consul/...) passes with the change; demo passes on the clean tree and fails with the change",
-    "checks_run_against_it": "seedtest.sh: git -C /repo apply patch.diff; ./run.sh <check> quick (evidence redirected with VERIF_OUT_DIR); git -C /repo checkout -- .",
+    "checks_run_against_it": "seedtest_iso.sh (round 3; rounds 1-2 used seedtest.sh on /repo itself): patch applied to a scratch worktree of /repo HEAD, checks run from a scratch copy of /verif with VERIF_REPO and the go.mod replace pointing at that worktree; ./run.sh <check> quick; worktree removed",
     "caught_by_quick": caught,
     "note": note,
 }
